@@ -73,7 +73,7 @@ type skelWalker struct {
 	seq  *[]string // when set, every tag is also appended here in source order
 	// inl, when set, renders the body of an inlined helper in place (ordered mode); otherwise the walker
 	// walks the helper's body itself (set mode)
-	inl   func(fd *ast.FuncDecl, deferred bool)
+	inl   func(fd *ast.FuncDecl, c *ast.CallExpr, deferred bool)
 	depth int
 }
 
@@ -193,7 +193,7 @@ func (w *skelWalker) call(c *ast.CallExpr, deferred bool) {
 	}
 	if fd := w.helperOf(c); fd != nil && w.hasPrimitive(fd) {
 		if w.inl != nil {
-			w.inl(fd, deferred)
+			w.inl(fd, c, deferred)
 			return
 		}
 		w.depth++
@@ -219,9 +219,10 @@ func (w *skelWalker) walk(n ast.Node, fnName string) {
 			}
 			return false
 		case *ast.GoStmt:
-			if fl, ok := s.Call.Fun.(*ast.FuncLit); ok {
+			if body := goBody(w.p, s); body != nil {
+				// a goroutine that is no function of the skeleton (a literal, or a method it was moved into): the
+				// anonymous goroutine of the enclosing function
 				w.tag("spawn "+strings.TrimPrefix(fnName, "Conn.")+".func1", false)
-				_ = fl
 			} else {
 				w.tag("spawn "+strings.TrimPrefix(w.p.str(s.Call.Fun), "c."), false)
 			}
@@ -326,6 +327,15 @@ type ordWalker struct {
 	// inlined there are returns of the caller
 	inReturn bool
 	inlined  bool
+	// knowledge plumbing for the path languages: the scope prefix of condition atoms (each inlined helper body has its
+	// own), what the results of the helper being inlined are assigned to, the call whose results the pending assignment
+	// receives, and the atoms standing for boolean helper results used in the condition being rendered
+	scope          string
+	nInline        int
+	retTargets     []string
+	pendingCall    *ast.CallExpr
+	pendingTargets []string
+	condCalls      map[*ast.CallExpr]string
 }
 
 var goldenPath = "/verif/cir/skeleton_ordered.json"
@@ -337,7 +347,7 @@ func (o *ordWalker) flat(n ast.Node) {
 		return
 	}
 	w := &skelWalker{p: o.p, tags: map[string]bool{}, seq: &o.out, depth: o.depth}
-	w.inl = func(fd *ast.FuncDecl, deferred bool) {
+	w.inl = func(fd *ast.FuncDecl, c *ast.CallExpr, deferred bool) {
 		o.depth++
 		inRet := o.inReturn
 		if deferred {
@@ -349,16 +359,30 @@ func (o *ordWalker) flat(n ast.Node) {
 			}
 			o.close(m)
 		} else if inRet {
+			o.inReturn = false
 			o.stmt(fd.Body) // `return helper(...)`: the helper's returns are the caller's
 			o.inlined = true
 		} else {
-			// a helper rendered in place of its call: its returns end the helper, not the caller
+			// a helper rendered in place of its call: its returns end the helper, not the caller; its variables live
+			// in a scope of their own; what it returns is what the caller's variables (or condition) receive
+			o.nInline++
+			id := fmt.Sprintf("i%d:", o.nInline)
+			var targets []string
+			if c != nil && c == o.pendingCall {
+				targets = o.pendingTargets
+			} else if c != nil && o.condCalls != nil {
+				o.condCalls[c] = id + "ret"
+				targets = []string{"=" + id + "ret"}
+			}
+			savedScope, savedT, savedCond, savedPC := o.scope, o.retTargets, o.condCalls, o.pendingCall
+			o.scope, o.retTargets, o.condCalls, o.pendingCall = id, targets, nil, nil
 			m := o.open("inline{")
 			o.stmt(fd.Body)
 			if n := len(o.out); n > 0 && o.out[n-1] == "return" {
 				o.out = o.out[:n-1]
 			}
 			o.close(m)
+			o.scope, o.retTargets, o.condCalls, o.pendingCall = savedScope, savedT, savedCond, savedPC
 			o.inlined = true
 		}
 		o.inReturn = inRet
@@ -375,7 +399,7 @@ func (o *ordWalker) open(tok string) int {
 // close ends the structure opened at mark; drops it when it holds nothing but structure tokens.
 func (o *ordWalker) close(mark int) {
 	for _, t := range o.out[mark:] {
-		if !structTok[t] {
+		if !structTok[t] && !knowledgeTok(t) {
 			o.out = append(o.out, "}")
 			return
 		}
@@ -400,7 +424,10 @@ func (o *ordWalker) stmt(s ast.Stmt) {
 		o.stmt(s.Init)
 		w := &skelWalker{p: o.p, tags: map[string]bool{}, seq: &o.out}
 		w.reads(s.Cond)
+		o.condCalls = map[*ast.CallExpr]string{}
 		o.flat(s.Cond)
+		o.out = append(o.out, "cond:"+condExpr(o.p, s.Cond, o.scope, o.condCalls))
+		o.condCalls = nil
 		m := o.open("if{")
 		o.stmt(s.Body)
 		if s.Else != nil {
@@ -419,6 +446,9 @@ func (o *ordWalker) stmt(s ast.Stmt) {
 		}
 		m := o.open(tok)
 		o.flat(s.Cond)
+		if s.Cond != nil {
+			o.out = append(o.out, "loopcond:"+condExpr(o.p, s.Cond, o.scope, nil))
+		}
 		o.stmt(s.Body)
 		o.stmt(s.Post)
 		o.close(m)
@@ -482,6 +512,11 @@ func (o *ordWalker) stmt(s ast.Stmt) {
 			o.flat(e)
 		}
 		o.inReturn = saved
+		if len(o.retTargets) > 0 && len(o.retTargets) == len(s.Results) {
+			for i, r := range s.Results {
+				o.out = append(o.out, valueTokens(o.p, o.retTargets[i], r, o.scope)...)
+			}
+		}
 		if n := len(o.out); !(o.inlined && n > 0 && o.out[n-1] == "return") {
 			o.out = append(o.out, "return")
 		}
@@ -496,6 +531,36 @@ func (o *ordWalker) stmt(s ast.Stmt) {
 		o.flat(s)
 	case *ast.GoStmt:
 		o.flat(s)
+	case *ast.AssignStmt:
+		var targets []string
+		for _, l := range s.Lhs {
+			n := atomName(o.p, l)
+			if n == "_" {
+				n = ""
+			}
+			if n != "" {
+				n = o.scope + n
+				o.out = append(o.out, "kill:"+n)
+			}
+			targets = append(targets, n)
+		}
+		if len(s.Rhs) == 1 {
+			if c, ok := s.Rhs[0].(*ast.CallExpr); ok {
+				o.pendingCall, o.pendingTargets = c, targets
+			}
+		}
+		o.flat(s)
+		o.pendingCall, o.pendingTargets = nil, nil
+		if len(s.Lhs) == len(s.Rhs) {
+			for i, r := range s.Rhs {
+				o.out = append(o.out, valueTokens(o.p, targets[i], r, o.scope)...)
+			}
+		}
+	case *ast.IncDecStmt:
+		o.flat(s)
+		if n := atomName(o.p, s.X); n != "" {
+			o.out = append(o.out, "kill:"+o.scope+n)
+		}
 	case *ast.BranchStmt:
 		switch s.Tok {
 		case token.BREAK:
@@ -555,9 +620,9 @@ func genSkeletonOrdered(p *pkgSrc) map[string][]string {
 		if name == "Conn.CloseRead" {
 			ast.Inspect(fd.Body, func(x ast.Node) bool {
 				if g, ok := x.(*ast.GoStmt); ok {
-					if fl, ok := g.Call.Fun.(*ast.FuncLit); ok {
+					if body := goBody(p, g); body != nil {
 						o2 := &ordWalker{p: p, fn: name + ".func1"}
-						o2.stmt(fl.Body)
+						o2.stmt(body)
 						res[name+".func1"] = o2.out
 					}
 				}
@@ -588,9 +653,9 @@ func genSkeleton(p *pkgSrc) (string, error) {
 		if name == "Conn.CloseRead" {
 			ast.Inspect(fd.Body, func(x ast.Node) bool {
 				if g, ok := x.(*ast.GoStmt); ok {
-					if fl, ok := g.Call.Fun.(*ast.FuncLit); ok {
+					if body := goBody(p, g); body != nil {
 						w2 := &skelWalker{p: p, tags: map[string]bool{}}
-						w2.walk(fl.Body, name+".func1")
+						w2.walk(body, name+".func1")
 						var t2 []string
 						for t := range w2.tags {
 							t2 = append(t2, t)
@@ -655,4 +720,176 @@ func genSkeleton(p *pkgSrc) (string, error) {
 	emit("its path languages.", "declared", gnames, func(n string) []string { return pathRows(golden[n]) })
 	sb.WriteString("end WS.Gen.Skeleton\n")
 	return sb.String(), nil
+}
+
+func knowledgeTok(t string) bool {
+	for _, p := range []string{"cond:", "loopcond:", "kill:", "set:", "copy:"} {
+		if strings.HasPrefix(t, p) {
+			return true
+		}
+	}
+	return false
+}
+
+// atomName: the name of a variable or field chain as used in condition atoms ("" if the expression is neither).
+func atomName(p *pkgSrc, e ast.Expr) string {
+	switch x := e.(type) {
+	case *ast.Ident:
+		return x.Name
+	case *ast.SelectorExpr:
+		if b := atomName(p, x.X); b != "" {
+			return b + "." + x.Sel.Name
+		}
+	case *ast.ParenExpr:
+		return atomName(p, x.X)
+	}
+	return ""
+}
+
+// neqAtom: the canonical atom for `a != b` (operands in lexical order).
+func neqAtom(a, b string) string {
+	if a > b {
+		a, b = b, a
+	}
+	return a + "!=" + b
+}
+
+// valueTokens: what is learned about `target` (a scoped variable name; "=atom" for the boolean result of a helper used in
+// a condition; "" for nothing) when it receives the value of expression e evaluated in `scope`.
+func valueTokens(p *pkgSrc, target string, e ast.Expr, scope string) []string {
+	if target == "" {
+		return nil
+	}
+	boolAtom, nilAtom := target, ""
+	if strings.HasPrefix(target, "=") {
+		boolAtom = target[1:]
+	} else {
+		nilAtom = neqAtom(target, "nil")
+	}
+	switch x := e.(type) {
+	case *ast.ParenExpr:
+		return valueTokens(p, target, x.X, scope)
+	case *ast.Ident:
+		switch x.Name {
+		case "nil":
+			if nilAtom != "" {
+				return []string{"set:" + nilAtom + "=0"}
+			}
+		case "true":
+			return []string{"set:" + boolAtom + "=1"}
+		case "false":
+			return []string{"set:" + boolAtom + "=0"}
+		default:
+			out := []string{"copy:" + boolAtom + "<-" + scope + x.Name}
+			if nilAtom != "" {
+				out = append(out, "copy:"+nilAtom+"<-"+neqAtom(scope+x.Name, "nil"))
+			}
+			return out
+		}
+	case *ast.CallExpr:
+		if nilAtom != "" {
+			if f := p.str(x.Fun); f == "errors.New" || f == "fmt.Errorf" {
+				return []string{"set:" + nilAtom + "=1"}
+			}
+		}
+	}
+	return nil
+}
+
+// condExpr renders a condition for the path-language computation: `&(a,b)`, `|(a,b)`, `!(a)`, atoms `@name` (a boolean
+// variable or field, or the result of a boolean helper rendered in place), `@x!=y` (comparisons in one canonical form: ==
+// is the negation of !=, >= of <, > is < swapped), and `*` for anything else (no knowledge). Names carry the scope.
+func condExpr(p *pkgSrc, e ast.Expr, scope string, calls map[*ast.CallExpr]string) string {
+	operand := func(e ast.Expr) string {
+		if n := atomName(p, e); n != "" {
+			if n == "nil" || n == "true" || n == "false" {
+				return n
+			}
+			return scope + n
+		}
+		if b, ok := e.(*ast.BasicLit); ok {
+			return b.Value
+		}
+		if u, ok := e.(*ast.UnaryExpr); ok && u.Op == token.SUB {
+			if b, ok := u.X.(*ast.BasicLit); ok {
+				return "-" + b.Value
+			}
+		}
+		return ""
+	}
+	switch x := e.(type) {
+	case *ast.ParenExpr:
+		return condExpr(p, x.X, scope, calls)
+	case *ast.Ident:
+		if x.Name == "true" || x.Name == "false" {
+			return "*"
+		}
+		return "@" + scope + x.Name
+	case *ast.SelectorExpr:
+		if n := atomName(p, x); n != "" {
+			return "@" + scope + n
+		}
+	case *ast.CallExpr:
+		if a, ok := calls[x]; ok {
+			return "@" + a
+		}
+	case *ast.UnaryExpr:
+		if x.Op == token.NOT {
+			return "!(" + condExpr(p, x.X, scope, calls) + ")"
+		}
+	case *ast.BinaryExpr:
+		switch x.Op {
+		case token.LAND:
+			return "&(" + condExpr(p, x.X, scope, calls) + "," + condExpr(p, x.Y, scope, calls) + ")"
+		case token.LOR:
+			return "|(" + condExpr(p, x.X, scope, calls) + "," + condExpr(p, x.Y, scope, calls) + ")"
+		case token.EQL, token.NEQ, token.LSS, token.GEQ, token.GTR, token.LEQ:
+			a, b := operand(x.X), operand(x.Y)
+			if a == "" || b == "" {
+				return "*"
+			}
+			switch x.Op {
+			case token.NEQ:
+				return "@" + neqAtom(a, b)
+			case token.EQL:
+				return "!(@" + neqAtom(a, b) + ")"
+			case token.LSS:
+				return "@" + a + "<" + b
+			case token.GEQ:
+				return "!(@" + a + "<" + b + ")"
+			case token.GTR:
+				return "@" + b + "<" + a
+			case token.LEQ:
+				return "!(@" + b + "<" + a + ")"
+			}
+		}
+	}
+	return "*"
+}
+
+// goBody: the body of the goroutine started by a go statement when it is not a function of the skeleton itself: a function
+// literal, or a function / method of the package (the literal moved into a named function).
+func goBody(p *pkgSrc, g *ast.GoStmt) *ast.BlockStmt {
+	switch f := g.Call.Fun.(type) {
+	case *ast.FuncLit:
+		return f.Body
+	case *ast.Ident:
+		if fd, ok := p.funcs[f.Name]; ok && !skelFuncs[f.Name] && fd.Body != nil {
+			return fd.Body
+		}
+	case *ast.SelectorExpr:
+		var cands []*ast.FuncDecl
+		for k, fd := range p.funcs {
+			if strings.HasSuffix(k, "."+f.Sel.Name) {
+				if skelFuncs[k] {
+					return nil
+				}
+				cands = append(cands, fd)
+			}
+		}
+		if len(cands) == 1 && cands[0].Body != nil {
+			return cands[0].Body
+		}
+	}
+	return nil
 }
